@@ -120,18 +120,16 @@ def _(value: Flag):
 
 
 def sort_set_values(set_values):
-    is_sorted = False
+    # sort by the generated code first: this order does not depend on the
+    # hash seed, and sorting by value afterwards is deterministic even for
+    # values which are only partially ordered (like frozensets)
+    set_values = sorted(set_values, key=repr)
     try:
         set_values = sorted(set_values)
-        is_sorted = True
     except TypeError:
         pass
 
-    set_values = list(map(repr, set_values))
-    if not is_sorted:
-        set_values = sorted(set_values)
-
-    return set_values
+    return list(map(repr, set_values))
 
 
 @customize_repr
